@@ -134,15 +134,17 @@ var (
 	hdrRegex = map[string][]string{"^v[0-9]$": {"v1", "v2"}, "^svc\\..*$": {"svc.A", "svc.B"}, ".*": {"other", "v1"}, "^V.*$": {"V1"}, "^(v1|svc\\.A)$": {"v1", "svc.A"},
 		// unanchored patterns (Go regexp search semantics): a literal matches every value that contains it
 		"v": {"v1", "svc.A", "v2"}, "svc": {"svc.A", "svc.B"}, "1": {"v1", "V1"}, "c\\.": {"svc.A", "svc.B"}, "[0-9]": {"v1", "V1", "v2"}}
-	methods  = []string{"GET", "POST", "PUT", "get"}
-	queries  = []string{"", "k=v", "k=v&x=1", "x=1"}
-	xVals    = []string{"x1", "x22", "y"}
+	methods = []string{"GET", "POST", "PUT", "get"}
+	queries = []string{"", "k=v", "k=v&x=1", "x=1"}
+	// the harness variable also takes values that look like query strings: the value spaces of two variables of
+	// one rule overlap, so a rule item evaluated against ANOTHER variable's value can hold by accident
+	xVals    = []string{"x1", "x22", "y", "k=v", "x=1"}
 	varNames = []string{types.VarPath, types.VarMethod, types.VarQueryString, types.VarHost, varX}
 	varRegex = map[string]map[string][]string{
 		types.VarMethod:      {"^(GET|POST)$": {"GET", "POST"}, "^P.*$": {"POST", "PUT"}},
 		types.VarQueryString: {"^k=.*$": {"k=v", "k=v&x=1"}},
 		types.VarHost:        {"^[a-z.]*a\\.com(:[0-9]+)?$": {"a.com", "b.a.com:80"}},
-		varX:                 {"^x[0-9]+$": {"x1", "x22"}},
+		varX:                 {"^x[0-9]+$": {"x1", "x22"}, "^k=.*$": {"k=v"}},
 	}
 	models = []string{"", "and", "or", "AND", "Or", "or"}
 )
@@ -269,6 +271,23 @@ func genRoute(rt *rapid.T, cluster string) routeSpec {
 		n := rapid.IntRange(1, 4).Draw(rt, "nvars")
 		for i := 0; i < n; i++ {
 			r.Vars = append(r.Vars, genVarM(rt))
+		}
+		if n >= 2 && chance(rt, "twinItems", 30) {
+			// two neighbouring items over the two variables a request may lack (query string, harness variable) that
+			// ask for the same value: whichever of the two the request lacks, the other one's value would satisfy it
+			i := rapid.IntRange(1, n-1).Draw(rt, "twinAt")
+			a, b := types.VarQueryString, varX
+			if rapid.Bool().Draw(rt, "twinSwap") {
+				a, b = b, a
+			}
+			m := varM{Value: pick(rt, "twinVal", []string{"k=v", "x=1"})}
+			if chance(rt, "twinRegex", 35) {
+				m = varM{Regex: "^k=.*$"}
+			}
+			m.Name, m.Model = a, pick(rt, "twinModel", []string{"or", "or", "and", ""})
+			r.Vars[i-1] = m
+			m.Name, m.Model = b, pick(rt, "twinModel2", models)
+			r.Vars[i] = m
 		}
 	case k < 13:
 		r.Kind = "dsl"
@@ -408,7 +427,7 @@ func genHost(rt *rapid.T, c *cfgSpec) string {
 
 func genRequest(rt *rapid.T, c *cfgSpec) *reqSpec {
 	q := &reqSpec{Host: genHost(rt, c), Headers: map[string]string{}}
-	q.Path, q.Method, q.Query, q.X = pick(rt, "rpath", paths), pick(rt, "rmethod", methods), pick(rt, "rquery", queries), pick(rt, "rx", xVals)
+	q.Path, q.Method, q.Query, q.X = pick(rt, "rpath", paths), pick(rt, "rmethod", methods), pick(rt, "rquery", queries), pick(rt, "rx", append([]string{""}, xVals...))
 	for _, k := range hdrKeys {
 		if chance(rt, "has-"+k, 45) {
 			q.Headers[k] = pick(rt, "rhv", hdrVals)
@@ -763,7 +782,9 @@ func newCtx(q *reqSpec) context.Context {
 	if q.Query != "" { // the HTTP stream layers set the query variable only when a query is present
 		_ = variable.SetString(ctx, types.VarQueryString, q.Query)
 	}
-	_ = variable.SetString(ctx, varX, q.X)
+	if q.X != "" { // like the query string: a variable the request does not carry is not set at all
+		_ = variable.SetString(ctx, varX, q.X)
+	}
 	return ctx
 }
 
@@ -854,6 +875,21 @@ func routeCase(rt *rapid.T, c *cfgSpec, q *reqSpec) {
 				classes = append(classes, "selected-kind:"+r.Kind)
 				if i > 0 {
 					classes = append(classes, "selected-not-first-in-list")
+				}
+			}
+		}
+	}
+	if mvh >= 0 {
+		for i := range c.VHosts[mvh].Routes {
+			r := &c.VHosts[mvh].Routes[i]
+			for j, v := range r.Vars {
+				// an item whose variable the request does not carry, after an item of another variable in the same rule
+				if j > 0 && q.variable(v.Name) == "" && q.variable(r.Vars[j-1].Name) != "" {
+					classes = append(classes, "variable-rule:item-of-an-unset-variable-after-a-set-one")
+					prev := q.variable(r.Vars[j-1].Name)
+					if (v.Regex != "" && searchMatch(v.Regex, prev)) || (v.Regex == "" && v.Value == prev) {
+						classes = append(classes, "variable-rule:unset-item-would-hold-for-the-previous-variable's-value")
+					}
 				}
 			}
 		}
